@@ -137,12 +137,12 @@ func randGraph(r *rand.Rand, n int) agraph {
 		// input shapes
 		switch {
 		case r.Intn(12) == 0:
-			m.Inputs = []ainput{{K: "params", V: fmt.Sprintf("p=%d", r.Intn(3))}} // params-only module
+			m.Inputs = []ainput{{K: "params", V: paramValue(r)}} // params-only module
 		case r.Intn(12) == 0:
 			m.Inputs = []ainput{{K: "source", V: "sf.substreams.v1.Clock"}} // clock-only module
 		default:
 			if r.Intn(5) == 0 {
-				m.Inputs = append(m.Inputs, ainput{K: "params", V: fmt.Sprintf("p=%d", r.Intn(3))})
+				m.Inputs = append(m.Inputs, ainput{K: "params", V: paramValue(r)})
 			}
 			if r.Intn(3) == 0 || (len(maps) == 0 && len(stores) == 0) {
 				m.Inputs = append(m.Inputs, ainput{K: "source", V: blockType})
@@ -352,7 +352,8 @@ func mutate(r *rand.Rand, g agraph, i int, kind string) (agraph, mutation, bool)
 		if len(js) == 0 {
 			return nil, mu, false
 		}
-		m.Inputs[js[0]].V += "0"
+		// a parameter value is free text handed to the module as is: a change in whitespace only is a change too
+		m.Inputs[js[0]].V = []string{m.Inputs[js[0]].V + "0", m.Inputs[js[0]].V + " ", " " + m.Inputs[js[0]].V, m.Inputs[js[0]].V + "\n"}[r.Intn(4)]
 	case "source_type":
 		js := idxOf("source")
 		if len(js) == 0 {
@@ -542,6 +543,35 @@ func ancestorsOf(g agraph, name string) map[string]bool {
 var mutationKinds = []string{"code", "entrypoint", "initial_block", "kind", "param_value", "source_type", "filter_query", "filter_module",
 	"add_input", "remove_input", "swap_inputs_different_kind", "swap_inputs_same_kind", "store_input_mode", "retarget_input"}
 
+// paramValue: parameter values are free text; some look like identifiers (and could be the name of some module)
+func paramValue(r *rand.Rand) string {
+	if r.Intn(2) == 0 {
+		return fmt.Sprintf("pv%d", r.Intn(3))
+	}
+	return fmt.Sprintf("p=%d", r.Intn(3))
+}
+
+func isIdent(s string) bool {
+	if s == "" {
+		return false
+	}
+	for i, c := range s {
+		if !(c == '_' || (c >= 'a' && c <= 'z') || (c >= 'A' && c <= 'Z') || (i > 0 && c >= '0' && c <= '9')) {
+			return false
+		}
+	}
+	return true
+}
+
+func hasName(g agraph, n string) bool {
+	for _, m := range g {
+		if m.Name == n {
+			return true
+		}
+	}
+	return false
+}
+
 func runSig(a *args) error {
 	r := rand.New(rand.NewSource(a.seed))
 	n := 400
@@ -643,6 +673,27 @@ func runSig(a *args) error {
 				extra[k].Filter[0] = "x_" + extra[k].Filter[0]
 			}
 			extra[k].Code = "other-" + extra[k].Code
+		}
+		// an unrelated module may happen to be NAMED like a parameter value of the package (a value is not a reference)
+		if r.Intn(3) == 0 {
+			for _, m := range g {
+				for _, in := range m.Inputs {
+					if in.K == "params" && isIdent(in.V) && !hasName(add, in.V) && !hasName(extra, in.V) {
+						old := extra[0].Name
+						extra[0].Name = in.V
+						for k := range extra {
+							for x := range extra[k].Inputs {
+								if (extra[k].Inputs[x].K == "map" || extra[k].Inputs[x].K == "store") && extra[k].Inputs[x].V == old {
+									extra[k].Inputs[x].V = in.V
+								}
+							}
+							if len(extra[k].Filter) == 2 && extra[k].Filter[0] == old {
+								extra[k].Filter[0] = in.V
+							}
+						}
+					}
+				}
+			}
 		}
 		pos := r.Intn(len(add) + 1)
 		add = append(add[:pos:pos], append(extra, add[pos:]...)...)
